@@ -5,7 +5,8 @@ T-corr: Model/Multiscale.v (extracted) against real pandora.run executions obser
         two disparity grids of every execution) and run_multiscale (the coarse disparity map and
         validity mask handed to disparity_range).  The model receives the real coarse disparity
         maps and validity masks and must predict sizes and grids of every execution exactly.
-Spec  : independent Python oracle of the property sentence on the same observations (number and
+Spec  : the boolean checker extracted from Spec/Multiscale.v (finer_spec_bad, proved sound) applied to the observed
+        grids of every finer level, and an independent Python oracle of the property sentence on the same observations (number and
         order of executions, sizes shrinking by scale_factor, coarsest interval, finer interval
         from the window around a coarse pixel at most one pixel from the geometric parent, steps
         after the multiscale step once at full resolution, output sizes, inputs not modified)."""
@@ -25,8 +26,8 @@ DRIVERS = ["x15"]
 RULE = ("random pandora.run executions: sad, window 3/5, images 12..30 x 14..36 (mono, 2-band, with/without masks with "
         "values 0/1/2), num_scales in {2,3}, scale_factor in {2,3}, marge in {0,1,2}, user intervals divisible or not by "
         "scale_factor^(num_scales-1), optional median filter / validation before the multiscale step, optional filter / "
-        "refinement / validation after it, plus fixed corpus cases (2-band pair with mask values 1 and 2; one image larger "
-        "than the 100-pixel block); every run is non-trivial (>= 2 scales); distinct by (shape, bands, masks, pipeline, "
+        "refinement / validation after it, plus fixed corpus cases (2-band pair with mask values 1 and 2; one 212x230 "
+        "image whose coarse level exceeds the 100-pixel chunk on both axes); every run is non-trivial (>= 2 scales); distinct by (shape, bands, masks, pipeline, "
         "num_scales, scale_factor, marge, interval)")
 ASSUMES = [
     "radiometry of the Gaussian pyramid (skimage pyramid_gaussian) and the disparity maps computed at each level are not "
@@ -36,6 +37,8 @@ ASSUMES = [
     "for scale_factor 3 the first grids are floats (d/3^n)*3: compared with the model's exact rational within 2^-18 "
     "(bridging rule b) and exactly when the quotient is an integer; all other grids are compared for equality",
     "sequencing (which step runs at which scale) is the model of C01; its theorems are re-used",
+    "theorems on disparity_range assume an odd window (the matching-cost schema enforces it) not larger than the coarse "
+    "map; a valid-flagged pixel whose disparity is NaN counts as invalid (invalid_ind of the code)",
 ]
 TRUSTED = ["cst.PANDORA_MSK_PIXEL_INVALID is read from the imported package and given to the model as data"]
 
@@ -307,6 +310,27 @@ def spec_finer(case, lvl, nxt, side, invalid_bits):
     return bad
 
 
+def checker_jobs(case, rec, with_right):
+    """(lvl, nxt, side) triples on which the extracted spec checker (fid 6) is run, with its argument"""
+    jobs = []
+    sf = case["sf"]
+    for lvl, nxt in zip(rec["ms"], rec["mc"][1:]):
+        for side in ("left", "right") if with_right else ("left",):
+            prod = lvl[side]
+            gmin, gmax = (nxt["dmin"], nxt["dmax"]) if side == "left" else (nxt["rdmin"], nxt["rdmax"])
+            rows, cols = nxt["shape"]
+            if prod is None or gmin is None or gmin.shape[0] < rows or gmin.shape[1] < cols:
+                continue
+            s_ = lvl["scale"]
+            dmin, dmax = case["disp"] if side == "left" else (-case["disp"][1], -case["disp"][0])
+            arg = [prod["ws"], case["marge"], sf, enc_oq_grid(prod["D"]), enc_z_grid(prod["V"]),
+                   Fraction(dmin, sf ** (s_ - 1)), Fraction(dmax, sf ** (s_ - 1)), rows, cols,
+                   enc_oq_grid(np.asarray(gmin, dtype=np.float64)[:rows, :cols]),
+                   enc_oq_grid(np.asarray(gmax, dtype=np.float64)[:rows, :cols])]
+            jobs.append((lvl, nxt, side, arg))
+    return jobs
+
+
 def run(ctx):
     import pandora
     import pandora.constants as cst
@@ -375,6 +399,10 @@ def run(ctx):
         # mask decimation between consecutive levels (left image): coarser = finer[::sf, ::sf]
         for b in rec["mc"][1:]:
             margs.append((4, [case["sf"], enc_z_grid(mask_src(b, invalid_bits, filled))]))
+        # the extracted spec checker on the observed grids of every finer level
+        if err is None:
+            for _lvl, _nxt, _side, arg in checker_jobs(case, rec, with_right):
+                margs.append((6, arg))
     # zoom contract for every (n, sf) in use
     zoom_keys = sorted({(e["left"]["D"].shape[ax], case["sf"]) for case, *_r, in obs for e in _r[6]["ms"] for ax in (0, 1)})
     for n_, sf_ in zoom_keys:
@@ -414,6 +442,11 @@ def run(ctx):
             ctx.violation("run_failed", f"{desc}: pandora.run raised {err}", replay)
             continue
         with_right = "validation" in [nm.split(".")[0] for nm in names]
+        jobs = checker_jobs(case, rec, with_right)
+        coq_bad = {}
+        for lvl_, _nxt, side_, _arg in jobs:
+            coq_bad[(lvl_["scale"], side_)] = mres[k]
+            k += 1
 
         # ---------- correspondence: model against observation
         impl_params = list(pandora.check_configuration.read_multiscale_params(cfg))
@@ -477,8 +510,19 @@ def run(ctx):
         # finer intervals
         for lvl, nxt in zip(rec["ms"], rec["mc"][1:]):
             for side in ("left", "right") if with_right else ("left",):
-                for key, what in spec_finer(case, lvl, nxt, side, invalid_bits)[:1]:
+                py_bad = spec_finer(case, lvl, nxt, side, invalid_bits)
+                for key, what in py_bad[:1]:
                     ctx.violation(key, f"{desc}: {what}", replay)
+                # the same verdict from the checker extracted from Spec/Multiscale.v (C15_spec_checker_sound)
+                cb = coq_bad.get((lvl["scale"], side))
+                if cb is not None:
+                    ctx.count("spec_checker_levels")
+                    if bool(cb) != bool(py_bad):
+                        ctx.mismatch("spec_checker_vs_python_oracle", {"scale": lvl["scale"], "side": side, **replay},
+                                     [w for _k, w in py_bad[:2]], cb[:4])
+                        if cb and not py_bad:
+                            ctx.violation("finer_interval", f"{desc}: scale {lvl['scale'] - 1} {side}: the extracted spec "
+                                                            f"checker rejects the interval of pixels {cb[:4]}", replay)
         # outputs
         if out_l["disparity_map"].shape != (rows, cols) or (with_right and out_r["disparity_map"].shape != (rows, cols)):
             ctx.violation("outputs_full_size", f"{desc}: output shape {out_l['disparity_map'].shape}", replay)
@@ -499,5 +543,5 @@ def run(ctx):
         if got != list(want):
             ctx.mismatch("zoom_index_map", {"n": n_, "sf": sf_}, got, want)
     ctx.gen_obligations = ["run_tbl_wf Gen.Tables.run_table = true (vm_compute), shared with C01",
-                           "Gen.MsConst (chunk size of disparity_range, class defaults, PANDORA_MSK_PIXEL_INVALID) = constants "
-                           "of Model/Multiscale.v and 1 <= chunk size (C15_constants_match)"]
+                           "Gen.MsConst: PANDORA_MSK_PIXEL_INVALID = 963 (bits 0,1,6,7,8,9) and 1 <= chunk size of "
+                           "disparity_range (C15_constants_match); class defaults used as regenerated"]
